@@ -167,6 +167,90 @@ pub fn check_fault_case(case: &FaultCase, info: &mut CaseInfo) -> Result<(), Str
 	Ok(())
 }
 
+/// The same to-be-signed bytes signed one after the other by two different keys of one algorithm
+/// (a CA key roll-over: same issuer name, same leaf parameters, no authority key identifier):
+/// each certificate must verify under the key that issued it, and a failing second signer must
+/// yield an error.
+#[derive(Clone, Debug, Serialize, Deserialize, PartialEq, Eq, Hash)]
+pub struct TwinIssuerCase {
+	pub alg: KeyAlg,
+	pub rsa_hash: RsaHash,
+	pub idx_a: u8,
+	pub idx_b: u8,
+	pub remote_b: bool,
+	pub fail_b: bool,
+	pub leaf: CertSpec,
+	pub leaf_key: KeySpec,
+}
+
+pub fn check_twin_issuers(c: &TwinIssuerCase, info: &mut CaseInfo) -> Result<(), String> {
+	let pool = keys::fixtures().pools[&c.alg].len() as u8;
+	if pool < 2 {
+		info.class("single-fixture-algorithm");
+		return Ok(());
+	}
+	let ka = KeySpec { alg: c.alg, idx: c.idx_a % pool, rsa_hash: c.rsa_hash, remote: !cfg!(feature = "crypto") };
+	let mut kb = KeySpec { alg: c.alg, idx: c.idx_b % pool, rsa_hash: c.rsa_hash, remote: c.remote_b || c.fail_b || !cfg!(feature = "crypto") };
+	if kb.idx == ka.idx {
+		kb.idx = (kb.idx + 1) % pool;
+	}
+	info.nontrivial = true;
+	info.class(format!("twin-issuers:{}", ka.label()));
+	let mut ispec = CertSpec::minimal();
+	ispec.is_ca = IsCaSpec::CaUnconstrained;
+	ispec.dn = DnSpec(vec![(DnTypeSpec::Org, DnValueSpec::new(StrKind::Utf8, "rv rolling CA"))]);
+	ispec.kid = KidSpec::Pre(Hex(vec![0x11; 4]));
+	ispec.serial = Some(Hex(vec![1]));
+	let mut leaf = c.leaf.clone();
+	leaf.use_aki = false;
+	if leaf.serial.is_none() {
+		leaf.serial = Some(Hex(vec![0x33, 0x44]));
+	}
+	if !matches!(leaf.kid, KidSpec::Pre(_)) && !cfg!(feature = "crypto") {
+		leaf.kid = KidSpec::Pre(Hex(vec![5]));
+	}
+	let leaf_key = keys::make_key(&c.leaf_key)?;
+	let key_a = keys::make_key(&ka)?;
+	let plan = Arc::new(FailPlan { mask: if c.fail_b { u64::MAX } else { 0 }, ..Default::default() });
+	let key_b = if kb.remote { keys::make_remote(&kb, plan.clone())? } else { keys::make_key(&kb)? };
+	// the two CA certificates (each self-signed with a steady signer object)
+	let ca_a = mk::cert_params(&ispec)?.self_signed(&key_a).map_err(|e| format!("CA a: {e}"))?;
+	let steady_b = keys::make_key(&KeySpec { remote: !cfg!(feature = "crypto"), ..kb })?;
+	let ca_b = mk::cert_params(&ispec)?.self_signed(&steady_b).map_err(|e| format!("CA b: {e}"))?;
+	// consecutively, on this thread
+	let first = mk::cert_params(&leaf)?.signed_by(&leaf_key, &ca_a, &key_a).map_err(|e| format!("leaf under CA a: {e}"))?;
+	let second = mk::cert_params(&leaf)?.signed_by(&leaf_key, &ca_b, &key_b);
+	let (d1, _) = decode_cert(first.der())?;
+	verify_sig(&ka, &d1.tbs_raw, &d1.signature).map_err(|e| format!("leaf issued by the first key: {e}"))?;
+	match (second, c.fail_b) {
+		(Ok(_), true) => Err("the second signer failed (it was never able to sign) but a certificate was produced".into()),
+		(Err(_), true) => Ok(()),
+		(Err(e), false) => Err(format!("leaf under CA b: {e}")),
+		(Ok(cert), false) => {
+			let (d2, _) = decode_cert(cert.der())?;
+			if d2.tbs_raw == d1.tbs_raw {
+				info.class("identical-tbs");
+			}
+			verify_sig(&kb, &d2.tbs_raw, &d2.signature).map_err(|e| format!("the same to-be-signed bytes issued again by a second key of the same algorithm: {e}"))
+		},
+	}
+}
+
+fn twin_issuer_case() -> BoxedStrategy<TwinIssuerCase> {
+	(
+		prop_oneof![4 => Just(KeyAlg::P256), 3 => Just(KeyAlg::P384), 4 => Just(KeyAlg::Ed25519), 1 => Just(KeyAlg::Rsa2048)],
+		gen::rsa_hash(),
+		any::<u8>(),
+		any::<u8>(),
+		prop::bool::weighted(0.3),
+		prop::bool::weighted(0.2),
+		leaf_spec(1_700_000_000),
+		gen::cheap_key(),
+	)
+		.prop_map(|(alg, rsa_hash, idx_a, idx_b, remote_b, fail_b, leaf, leaf_key)| TwinIssuerCase { alg, rsa_hash, idx_a, idx_b, remote_b, fail_b, leaf, leaf_key })
+		.boxed()
+}
+
 /// Keys generated by rcgen itself (never saved or reloaded) sign all three artefact kinds.
 #[derive(Clone, Debug, Serialize, Deserialize, PartialEq, Eq, Hash)]
 pub struct GenKeyCase {
@@ -276,7 +360,7 @@ fn gen_key_case() -> BoxedStrategy<GenKeyCase> {
 pub fn def() -> PropertyDef {
 	PropertyDef {
 		id: "C01",
-		rule: "Generated certificates (self-/issuer-signed, three public-key sources), CSRs (with attributes) and CRLs for every key algorithm of this back end, local and remote; the harness decoder cuts out the exact signed bytes; OpenSSL verifies the signature over them under the signer's key; inner and outer AlgorithmIdentifier must be byte-identical and equal the RFC table. Keys generated by rcgen itself (generate_for for every algorithm; under aws-lc-rs also generate_rsa_for with 2048/3072/4096 bits) sign a certificate, a CSR and a CRL without ever being saved or reloaded; the public key is the one OpenSSL derives from the exported private key. Fault sequences: 1..6 generation calls share a remote signer that fails on a generated subset of its sign calls, reporting the failure through varying error values. Non-trivial = optional fields present, or key not local P-256; fault case non-trivial = at least one failing and one succeeding call.",
+		rule: "Generated certificates (self-/issuer-signed, three public-key sources), CSRs (with attributes) and CRLs for every key algorithm of this back end, local and remote; the harness decoder cuts out the exact signed bytes; OpenSSL verifies the signature over them under the signer's key; inner and outer AlgorithmIdentifier must be byte-identical and equal the RFC table. Keys generated by rcgen itself (generate_for for every algorithm; under aws-lc-rs also generate_rsa_for with 2048/3072/4096 bits) sign a certificate, a CSR and a CRL without ever being saved or reloaded; the public key is the one OpenSSL derives from the exported private key. Twin issuers: the same leaf parameters are issued consecutively under two CA keys of one algorithm that share the issuer name (identical to-be-signed bytes); each must verify under its own issuer, and a second signer that always fails must yield an error. Fault sequences: 1..6 generation calls share a remote signer that fails on a generated subset of its sign calls, reporting the failure through varying error values. Non-trivial = optional fields present, or key not local P-256; fault case non-trivial = at least one failing and one succeeding call.",
 		assumptions: vec![
 			"OpenSSL's EVP signature verification and its SPKI encoding of the fixture keys",
 			"the harness DER reader finds the byte range of the signed part correctly (unit-tested, cross-checked against OpenSSL by C12/C03 which verify whole certificates)",
@@ -287,6 +371,7 @@ pub fn def() -> PropertyDef {
 			prop_sub("crl", 16_000, 150_000, || crl_case(false, false), check_crl_case),
 			prop_sub("fault", 12_000, 100_000, fault_case, check_fault_case),
 			prop_sub("generated-keys", 640, 6_000, gen_key_case, check_gen_key),
+			prop_sub("twin-issuers", 8_000, 100_000, twin_issuer_case, check_twin_issuers),
 		],
 	}
 }
